@@ -14,6 +14,7 @@ import itertools
 import json
 import os
 import random
+import re
 import shutil
 import subprocess
 import tempfile
@@ -98,26 +99,13 @@ def run_featlite(binary, ops, timeout=600):
     return [res.get(o["id"], {"crash": True}) for o in ops]
 
 
+TOKEN = re.compile(r'''"(?:\\.|[^"\\])*"|'(?:\\.|[^'\\])*'|[A-Za-z0-9_@$.+-]+|//=|/=|//|=>|[^\s]''')
+
+
 def squeeze(text):
-    """formatted text with all white space outside text / byte string literals removed"""
-    out, q = [], None
-    i = 0
-    while i < len(text):
-        c = text[i]
-        if q:
-            out.append(c)
-            if c == "\\" and i + 1 < len(text):
-                out.append(text[i + 1])
-                i += 1
-            elif c == q:
-                q = None
-        elif c in "\"'":
-            q = c
-            out.append(c)
-        elif not c.isspace():
-            out.append(c)
-        i += 1
-    return "".join(out)
+    """the token sequence of a formatted text (literals, names / numbers, operators, punctuation), joined by one blank:
+    white space between tokens is layout, a missing blank that fuses two names is not"""
+    return " ".join(TOKEN.findall(text))
 
 
 def abstract(op, obs):
@@ -143,6 +131,12 @@ def corpus(rnd, n):
     for _ in range(n):
         g = G.Gen(rnd, fmt="cbor", max_rules=4, depth=2, profile="shared")
         texts.append(G.render(g.schema()))
+    # groups written without the optional commas, 1-5 entries, arrays and maps
+    names = ["int", "tstr", "bool", "nil", "uint"]
+    for k in range(1, 6):
+        texts.append("t = [ %s ]\n" % " ".join(names[:k]))
+        texts.append("m = { %s }\n" % " ".join("%s: %s" % ("abcde"[i], names[i]) for i in range(k)))
+        texts.append("g = ( %s )\nt = [g]\n" % " ".join("? " + n for n in names[:k]))
     texts += ["a = ", "a = [", "= int", "a = {b: }", "a = 1 b = 2", "a = int\nb = a / tstr\n", "a = #6.32(tstr)\n", "a = { * tstr => any }\n", "a<T> = [T]\nb = a<int>\n"]
     for tx in texts:
         ops.append({"op": "parse", "cddl": tx})
